@@ -840,6 +840,23 @@ class Bed:
             # the client's decision, taken when the response was complete (before the peer's close can arrive)
             cl["pooled0"] = bool(conns) and any(p.transport is conns[0][0] and p.is_connected()
                                                 for dq in connector._conns.values() for (p, _t) in dq)
+            async def follow_up(method):
+                self.srv2 = None
+                try:
+                    async with asyncio.timeout(HANG):
+                        async with session.request(method, f"http://{rq.get('host', BASE_HOST)}{':%d' % rq['port'] if rq.get('port') else ''}/__second") as r2:
+                            b2 = await r2.read()
+                            cl["second"] = {"status": r2.status, "body": b2, "n_conns": len(conns)}
+                except TimeoutError:
+                    cl["second"] = {"hang": True, "n_conns": len(conns)}
+                except Exception as e:  # noqa
+                    cl["second"] = {"exc": type(e).__name__, "text": str(e)[:200], "n_conns": len(conns)}
+
+            eager = bool(case.get("eager_second")) and "hang" not in cl
+            if eager:
+                # back-to-back: the next request (not idempotent: no silent retry) goes out before anything still in
+                # flight from the first exchange has arrived
+                await follow_up("POST")
             cl["quiet"] = await self._quiesce(conns)
             cl["c2s_len"] = len(conns[0][0].total) if conns else 0
             cl["s2c_len"] = len(conns[0][1].total) if conns else 0
@@ -851,18 +868,8 @@ class Bed:
                   "server_open": bool(conns) and not conns[0][1].closed,
                   "acquired": len(connector._acquired)}
             cl["ka"] = st
-            if "hang" not in cl:
-                # follow-up request on the same session
-                self.srv2 = None
-                try:
-                    async with asyncio.timeout(HANG):
-                        async with session.get(f"http://{rq.get('host', BASE_HOST)}{':%d' % rq['port'] if rq.get('port') else ''}/__second") as r2:
-                            b2 = await r2.read()
-                            cl["second"] = {"status": r2.status, "body": b2, "n_conns": len(conns)}
-                except TimeoutError:
-                    cl["second"] = {"hang": True, "n_conns": len(conns)}
-                except Exception as e:  # noqa
-                    cl["second"] = {"exc": type(e).__name__, "text": str(e)[:200], "n_conns": len(conns)}
+            if "hang" not in cl and not eager:
+                await follow_up("GET")
         finally:
             try:
                 await session.close()
@@ -1005,7 +1012,7 @@ def oracle_fault(case, out):
     if "hang" in cl:
         return [("hang", f"no completion within {HANG:.0f} virtual seconds after the body source failed; client stage={cl['hang']}")]
     reads = rs.get("read", "read") != "none"
-    if sv.get("calls", 0) > 1:
+    if sv.get("calls", 0) > 2:      # ClientOSError on an idempotent method is retried once on a new connection
         bad.append(("handler-calls", f"handler called {sv.get('calls')} times"))
     if reads and sv.get("read_done"):
         got = sv.get("body")
@@ -1167,33 +1174,50 @@ def oracle(case, out):
                                          + ("" if got is None else f" (first difference at {first_diff(got, wantb)})")))
     # --- keep-alive --------------------------------------------------------------------------
     ka = cl["ka"]
-    if ka["n_conns"] != 1:
-        bad.append(("connections", f"{ka['n_conns']} connections were opened for one request"))
-    if ka["acquired"]:
-        bad.append(("leak", "the connector still counts the connection as acquired after the response was released"))
-    c_open, s_open = ka["client_open"], ka["server_open"]
-    if c_open != s_open or (not c_open and not ka["client_transport_closed"]):
-        bad.append(("keepalive-disagree", f"after the exchange: client reusable={c_open} "
-                                          f"(transport closed={ka['client_transport_closed']}), server open={s_open}"))
-    if cl.get("pooled0") and not s_open:
-        bad.append(("keepalive-disagree", "the client put the connection back into its pool as reusable, the server closed it "
-                                          "after the same exchange"))
-    if wants_close(case) and (c_open or s_open):
-        bad.append(("close-ignored", f"a close was requested but the connection stayed open (client={c_open}, server={s_open})"))
-    if plain_keepalive(case) and not expect and not (c_open and s_open):
-        bad.append(("unexpected-close", "HTTP/1.1, nobody asked to close, bodies fully consumed, response framed - but the connection was closed"))
     sec = cl.get("second") or {}
-    if sec.get("hang"):
-        bad.append(("second-hang", "the follow-up request on the same session hung"))
-    elif "exc" in sec:
-        bad.append(("second-exception", f"the follow-up request raised {sec['exc']}: {sec.get('text')}"))
+    if case.get("eager_second"):
+        # the follow-up was issued back-to-back: it must succeed, on the same transport iff the client pooled it
+        if ka["acquired"]:
+            bad.append(("leak", "the connector still counts a connection as acquired"))
+        if wants_close(case) and cl.get("pooled0"):
+            bad.append(("close-ignored", "a close was requested but the client pooled the connection"))
+        if plain_keepalive(case) and not expect and not cl.get("pooled0"):
+            bad.append(("unexpected-close", "HTTP/1.1, nobody asked to close, bodies fully consumed, response framed - but the connection was not pooled"))
+        if sec.get("hang"):
+            bad.append(("second-hang", "the back-to-back follow-up request hung"))
+        elif "exc" in sec:
+            bad.append(("second-exception", f"the back-to-back follow-up request raised {sec['exc']}: {sec.get('text')}"))
+        elif sec.get("status") != 200 or sec.get("body") != b"second":
+            bad.append(("second-response", f"the back-to-back follow-up request got status={sec.get('status')} body={sec.get('body')!r}"))
+        elif bool(cl.get("pooled0")) != (sec.get("n_conns") == 1):
+            bad.append(("reuse", f"client pooled the connection={cl.get('pooled0')} but the follow-up used {sec.get('n_conns')} connection(s)"))
     else:
-        if sec.get("status") != 200 or sec.get("body") != b"second":
-            bad.append(("second-response", f"the follow-up request got status={sec.get('status')} body={sec.get('body')!r}"))
-        reused = sec.get("n_conns") == 1
-        if (c_open and s_open) != reused:
-            bad.append(("reuse", f"connection considered reusable={c_open and s_open} but the follow-up request "
-                                 f"{'reused it' if reused else 'opened a new one'}"))
+        if ka["n_conns"] != 1:
+            bad.append(("connections", f"{ka['n_conns']} connections were opened for one request"))
+        if ka["acquired"]:
+            bad.append(("leak", "the connector still counts the connection as acquired after the response was released"))
+        c_open, s_open = ka["client_open"], ka["server_open"]
+        if c_open != s_open or (not c_open and not ka["client_transport_closed"]):
+            bad.append(("keepalive-disagree", f"after the exchange: client reusable={c_open} "
+                                              f"(transport closed={ka['client_transport_closed']}), server open={s_open}"))
+        if cl.get("pooled0") and not s_open:
+            bad.append(("keepalive-disagree", "the client put the connection back into its pool as reusable, the server closed it "
+                                              "after the same exchange"))
+        if wants_close(case) and (c_open or s_open):
+            bad.append(("close-ignored", f"a close was requested but the connection stayed open (client={c_open}, server={s_open})"))
+        if plain_keepalive(case) and not expect and not (c_open and s_open):
+            bad.append(("unexpected-close", "HTTP/1.1, nobody asked to close, bodies fully consumed, response framed - but the connection was closed"))
+        if sec.get("hang"):
+            bad.append(("second-hang", "the follow-up request on the same session hung"))
+        elif "exc" in sec:
+            bad.append(("second-exception", f"the follow-up request raised {sec['exc']}: {sec.get('text')}"))
+        else:
+            if sec.get("status") != 200 or sec.get("body") != b"second":
+                bad.append(("second-response", f"the follow-up request got status={sec.get('status')} body={sec.get('body')!r}"))
+            reused = sec.get("n_conns") == 1
+            if (c_open and s_open) != reused:
+                bad.append(("reuse", f"connection considered reusable={c_open and s_open} but the follow-up request "
+                                     f"{'reused it' if reused else 'opened a new one'}"))
     # --- nothing escaped ---------------------------------------------------------------------
     errs = [m for lvl, m in out["logs"] if lvl in ("ERROR", "CRITICAL")]
     if errs and not expect.get("server_error") and case.get("cread", "read") != "none":
@@ -1534,6 +1558,8 @@ def gen_case(rng):
         case["cread"] = "none"
     if rs.get("compression") and rng.random() < 0.1:
         rq["auto_decompress"] = False
+    if rng.random() < 0.25 and not req_fault(case):
+        case["eager_second"] = True
     return case
 
 
@@ -1702,7 +1728,8 @@ def in_model_subset(case):
     generator pieces; no cookies, compression, Expect, skip_auto_headers; chunked None or True."""
     rq = case["req"]
     b = rq.get("body") or {"kind": "none"}
-    if rq.get("compress") or rq.get("expect100") or rq.get("cookies") or rq.get("skip_auto") or b.get("fault"):
+    if rq.get("compress") or rq.get("expect100") or rq.get("cookies") or rq.get("skip_auto") or b.get("fault") \
+            or case.get("eager_second"):
         return False
     if b["kind"] not in ("none", "bytes", "bytearray", "memoryview", "agen", "bytesio"):
         return False
@@ -1801,7 +1828,8 @@ def in_resp_subset(case):
     """Responses Model/WireResp.v decides about: StreamResponse with or without a declared length, optional
     enable_chunked_encoding / force_close; no compression; the exchange ran to completion on both sides."""
     rq, rs = case["req"], case["resp"]
-    if rs["kind"] != "stream" or rs.get("compression") or case.get("expect") or rq.get("expect100") or req_fault(case):
+    if rs["kind"] != "stream" or rs.get("compression") or case.get("expect") or rq.get("expect100") or req_fault(case) \
+            or case.get("eager_second"):
         return False
     if case.get("cread", "read") == "none":
         return False
